@@ -206,7 +206,8 @@ def layoutRoots (bodies : List (Nat × Expr F)) : Nat → LState F → LState F
 
 mutual
 def exprSize : Expr F → Nat
-  | .lit _ | .input | .ident _ | .nested _ | .emptyNested => 1
+  | .lit _ | .input | .ident _ | .emptyNested => 1
+  | .nested _ => 2        -- pays for laying out the (possibly missing) body it names
   | .unary _ x | .reapply x | .prefixApply _ x | .suffixApply x _ => exprSize x + 1
   | .binary _ l r | .pair l r | .applyTo l r | .cond _ l r | .and l r | .or l r | .seq l r
   | .sideAfter l r | .infixApply l _ r => exprSize l + exprSize r + 1
@@ -232,7 +233,7 @@ def startState (s0 : Prog F) : LState F :=
     pending := [⟨.ref 0, entry, [(.endExpression, none)], entry⟩], done := [], depths := Array.replicate s0.instrs.size 0, dep := 0, pendDep := [0] }
 
 def compileState (s0 : Prog F) (p : Program F) : LState F :=
-  layoutRoots p.bodies (bodiesSize p.bodies + 1) (startState s0)
+  layoutRoots p.bodies (bodiesSize p.bodies + 2) (startState s0)
 
 def LState.toProg (s : LState F) : Prog F := ⟨s.instrs, s.jumps, s.consts⟩
 
